@@ -194,7 +194,7 @@ theorem blank_line_step (env : Env) (ls : LoopSt) (lno : Nat) (raw : Bytes) (ln 
   rw [lineLoop, hd]
   simp only
   rw [line_blank lno p ln hb]
-  simp only [feedToks, runStmts, LR.Cfg.takeResults, addStmts]
+  simp only [feedToks, runStmts, LR.Cfg.takeResults, addStmtsKeep]
 
 /-- Editing a line so that its tokens and pending state are unchanged (appending a comment,
 trailing whitespace: §2, §3) does not change the run, when at least one more line follows. -/
@@ -212,7 +212,7 @@ theorem line_edit_noop (env : Env) (ls : LoopSt) (lno : Nat) (raw raw' next : By
   rcases feedToks ls.cfg out.toks with e | cfg
   · rcases e with _ | loc <;> rfl
   · simp only [runStmts]
-    rcases addStmts env ls.st cfg.takeResults.1 with st | _ | _
+    rcases addStmtsKeep env ls.st cfg.takeResults.1 with ⟨st, _ | ⟨⟨_, _⟩ | _⟩⟩
     · simp only
       exact (lineLoop_lexLoc_irrelevant env ⟨out.pending, ⟨lno, out.endCol⟩, cfg.takeResults.2, st⟩
         ⟨lno, out'.endCol⟩ (lno + 1) next rest).symm
@@ -239,7 +239,7 @@ theorem line_edit_last (env : Env) (ls : LoopSt) (lno : Nat) (raw raw' : Bytes) 
   rcases feedToks ls.cfg out.toks with e | cfg
   · rcases e with _ | loc <;> rfl
   · simp only [runStmts]
-    rcases addStmts env ls.st cfg.takeResults.1 with st | _ | _
+    rcases addStmtsKeep env ls.st cfg.takeResults.1 with ⟨st, _ | ⟨⟨_, _⟩ | _⟩⟩
     · simp only [lineLoop]
     · rfl
     · rfl
